@@ -103,7 +103,7 @@ def place_task(r):
 
         def add(cond, ns=0, flags="", strings=()):
             rules.append(dict(ns=ns, flags=flags, strings=list(strings), cond=cond))
-            nstr[0] += len(strings)
+            nstr[0] += sum(sl.nidx(x) for x in strings)
         c10.place_rules(r, add, lambda: nstr[0], [whole])
         c10.place_rules(r, add, lambda: nstr[0], [whole])
         off = r.randrange(len(data))
@@ -141,12 +141,16 @@ def gen_tasks(r, tier):
         tasks.append(("ep", ep_rules(r, ins[i]), [ins[i]], r.choice(c10.ALLFLAGS), "ep=0 cbs=" + ",".join(scripts)))
     for _ in range(nblk):          # the whole block loop, <= 6 blocks, full rule sets
         pool = c10.gen_pool(r)
+        chained = r.random() < 0.35
         cand = [x for x in pool if len(x.data) >= 1]
+        if chained:      # chained strings: heads and tails in the same / in different blocks (the model follows the code)
+            cand = c10.chain_inputs(r)
+            pool = pool + cand
         x = r.choice(cand)
         k = r.randint(1, 6)
         parts = sl.split_parts(r, len(x.data), k)
         avail = [r.random() > 0.05 for _ in parts]
-        rs = c10.gen_ruleset(r, pool)
+        rs = c10.gen_ruleset(r, pool, chains=chained)
         other = r.choice([y for y in pool if y.data != x.data] or [sl.Input(b"he hello world")])
         tasks.append(("blk", rs, [x.with_parts(parts, avail), sl.Input(x.data, path=x.path), sl.Input(other.data, path=other.path)],
                       r.choice(c10.FLAGS), "masks=0:%d:1:2" % (len(parts) + 1)))
